@@ -340,7 +340,7 @@ class InterpND(object):
                     raise OutOfBoundsError("One of the requested xi contains a NaN",
                                            i, np.nan, self.grid[i][0], self.grid[i][-1])
 
-                eps = 1e-14 * self.grid[i][-1]
+                eps = 1e-14 * abs(self.grid[i][-1])
                 if np.any(p < self.grid[i][0] - eps) or np.any(p > self.grid[i][-1] + eps):
                     p1 = np.where(self.grid[i][0] > p)[0]
                     p2 = np.where(p > self.grid[i][-1])[0]
